@@ -68,6 +68,67 @@ def expected_shape(storage):
     return ("?",)
 
 
+def rule_K_IMAGEITER(ctx):
+    f = ctx.facts
+    # ImageIterator::next
+    ctx.rule("K-IMAGEITER", "ImageIterator::next yields the placeholder exactly when now_index == placeholder_index, otherwise the next raw "
+             "component, and increments now_index by one on both branches; new() starts at 0 with the given index")
+    nx = [it for p, it in f.hir.items() if it["name"] == "next" and "ImageIterator" in ((it.get("impl") or {}).get("self_ty") or "")]
+    if len(nx) != 1:
+        raise AnchorMissing("ImageIterator::next")
+    ctx.fn(nx[0])
+    # the decision in any spelling (`match c {true, false}`, `if c {..} else {..}`, the comparison bound to a temporary, operands in either
+    # order); the increment either once in each branch or once before the branch (AFTER the comparison was taken)
+    nb = strip(nx[0]["body"])
+    lets_nx = hir.let_env(nx[0]["body"])
+    brs = [hir.as_branch(n) for n in hir.walk(nx[0]["body"]) if n.get("k") in ("If", "Match") and hir.as_branch(n)]
+    ok = False
+
+    def is_inc(n):
+        return n.get("k") == "AssignOp" and n["op"] in ("+=", "Add", "AddAssign") and field_path(n["l"]) == ("self", "now_index") \
+            and strip(n["r"])["k"] == "Lit" and strip(n["r"])["lit"]["v"] == 1
+    if len(brs) == 1 and brs[0][1] is not None and brs[0][2] is not None:
+        cnd, th, el = brs[0]
+        c_use = strip(cnd)
+        c = strip(hir.through_lets(cnd, lets_nx))
+        ok = c["k"] == "Binary" and c["op"] in ("==", "Eq") and {field_path(c["l"]), field_path(c["r"])} == {("self", "now_index"), ("self", "placeholder_index")}
+        all_incs = [n for n in hir.walk(nx[0]["body"]) if is_inc(n)]
+        in_th = [n for n in hir.walk(th) if is_inc(n)]
+        in_el = [n for n in hir.walk(el) if is_inc(n)]
+        per_branch = len(in_th) == 1 and len(in_el) == 1 and len(all_incs) == 2
+        # hoisted: exactly one increment, outside the branches, and the comparison was evaluated (bound to a temporary) before it
+        hoisted = False
+        if len(all_incs) == 1 and not in_th and not in_el and nb["k"] == "Block" and c_use["k"] == "Path":
+            order = []
+            for st_ in nb["stmts"]:
+                if st_["k"] == "Let" and st_["pat"].get("hid") == c_use["path"].get("hid"):
+                    order.append("cmp")
+                elif st_["k"] in ("Semi", "Expr") and is_inc(strip(st_["expr"])):
+                    order.append("inc")
+            hoisted = order == ["cmp", "inc"]
+
+        def tail_ok(br, placeholder):
+            tail = hir.last_expr(br)
+            if placeholder:
+                return tail["k"] == "Call" and hir.callee_name(tail) == "Some" and any(
+                    x.get("k") == "Path" and hir.variant_of(x["path"]) == "Placeholder" for x in hir.walk(tail))
+            return tail["k"] == "MethodCall" and tail["method"] == "next" and field_path(tail["recv"]) == ("self", "raw_components")
+        ok = ok and (per_branch or hoisted) and tail_ok(th, True) and tail_ok(el, False)
+    # nothing else may end the iteration: a `?` / `return` in front of the decision (seed c01-n: `self.raw_components.peek()?;` "fuses" the
+    # iterator and drops a placeholder that is due after the last component)
+    early = [n for n in hir.walk(nx[0]["body"]) if n.get("k") == "Ret" or (n.get("k") == "Match" and "TryDesugar" in str(n.get("source", "")))]
+    ctx.ob("K-IMAGEITER", "next()", ok and not early, "shape of ImageIterator::next changed" if not early else "next() can end the iteration before the placeholder decision (`?` / return)")
+    nw = [it for p, it in f.hir.items() if it["name"] == "new" and "ImageIterator" in ((it.get("impl") or {}).get("self_ty") or "")]
+    ok = False
+    if len(nw) == 1:
+        b = hir.last_expr(nw[0]["body"])
+        if b["k"] == "Struct":
+            fl = {x["name"]: x["expr"] for x in b["fields"]}
+            nwp = [q.get("name") for q in nw[0]["params"]]           # new(raw_components, placeholder_index): by position
+            ok = (len(nwp) == 2 and field_path(fl["raw_components"]) == (nwp[0],) and field_path(fl["placeholder_index"]) == (nwp[1],)
+                  and strip(fl["now_index"])["k"] == "Lit" and strip(fl["now_index"])["lit"]["v"] == 0)
+    ctx.ob("K-IMAGEITER", "new()", ok, "")
+
 def run(ctx):
     f = ctx.facts
     st, cap = eqhash.rule_H_STORAGE(ctx)
@@ -167,61 +228,7 @@ def run(ctx):
             imgs.add(v)
             ctx.ob("K-COMPONENTS", "get_components_including_placeholder %s" % v, sh == ("image-iter", 0, 1), "%s" % (sh,))
     ctx.ob("K-COMPONENTS", "get_components_including_placeholder special-cases exactly the images", imgs == {v for v in variants if v.startswith("Image")}, "%s" % sorted(imgs))
-    # ImageIterator::next
-    ctx.rule("K-IMAGEITER", "ImageIterator::next yields the placeholder exactly when now_index == placeholder_index, otherwise the next raw "
-             "component, and increments now_index by one on both branches; new() starts at 0 with the given index")
-    nx = [it for p, it in f.hir.items() if it["name"] == "next" and "ImageIterator" in ((it.get("impl") or {}).get("self_ty") or "")]
-    if len(nx) != 1:
-        raise AnchorMissing("ImageIterator::next")
-    ctx.fn(nx[0])
-    # the decision in any spelling (`match c {true, false}`, `if c {..} else {..}`, the comparison bound to a temporary, operands in either
-    # order); the increment either once in each branch or once before the branch (AFTER the comparison was taken)
-    nb = strip(nx[0]["body"])
-    lets_nx = hir.let_env(nx[0]["body"])
-    brs = [hir.as_branch(n) for n in hir.walk(nx[0]["body"]) if n.get("k") in ("If", "Match") and hir.as_branch(n)]
-    ok = False
-
-    def is_inc(n):
-        return n.get("k") == "AssignOp" and n["op"] in ("+=", "Add", "AddAssign") and field_path(n["l"]) == ("self", "now_index") \
-            and strip(n["r"])["k"] == "Lit" and strip(n["r"])["lit"]["v"] == 1
-    if len(brs) == 1 and brs[0][1] is not None and brs[0][2] is not None:
-        cnd, th, el = brs[0]
-        c_use = strip(cnd)
-        c = strip(hir.through_lets(cnd, lets_nx))
-        ok = c["k"] == "Binary" and c["op"] in ("==", "Eq") and {field_path(c["l"]), field_path(c["r"])} == {("self", "now_index"), ("self", "placeholder_index")}
-        all_incs = [n for n in hir.walk(nx[0]["body"]) if is_inc(n)]
-        in_th = [n for n in hir.walk(th) if is_inc(n)]
-        in_el = [n for n in hir.walk(el) if is_inc(n)]
-        per_branch = len(in_th) == 1 and len(in_el) == 1 and len(all_incs) == 2
-        # hoisted: exactly one increment, outside the branches, and the comparison was evaluated (bound to a temporary) before it
-        hoisted = False
-        if len(all_incs) == 1 and not in_th and not in_el and nb["k"] == "Block" and c_use["k"] == "Path":
-            order = []
-            for st_ in nb["stmts"]:
-                if st_["k"] == "Let" and st_["pat"].get("hid") == c_use["path"].get("hid"):
-                    order.append("cmp")
-                elif st_["k"] in ("Semi", "Expr") and is_inc(strip(st_["expr"])):
-                    order.append("inc")
-            hoisted = order == ["cmp", "inc"]
-
-        def tail_ok(br, placeholder):
-            tail = hir.last_expr(br)
-            if placeholder:
-                return tail["k"] == "Call" and hir.callee_name(tail) == "Some" and any(
-                    x.get("k") == "Path" and hir.variant_of(x["path"]) == "Placeholder" for x in hir.walk(tail))
-            return tail["k"] == "MethodCall" and tail["method"] == "next" and field_path(tail["recv"]) == ("self", "raw_components")
-        ok = ok and (per_branch or hoisted) and tail_ok(th, True) and tail_ok(el, False)
-    ctx.ob("K-IMAGEITER", "next()", ok, "shape of ImageIterator::next changed")
-    nw = [it for p, it in f.hir.items() if it["name"] == "new" and "ImageIterator" in ((it.get("impl") or {}).get("self_ty") or "")]
-    ok = False
-    if len(nw) == 1:
-        b = hir.last_expr(nw[0]["body"])
-        if b["k"] == "Struct":
-            fl = {x["name"]: x["expr"] for x in b["fields"]}
-            nwp = [q.get("name") for q in nw[0]["params"]]           # new(raw_components, placeholder_index): by position
-            ok = (len(nwp) == 2 and field_path(fl["raw_components"]) == (nwp[0],) and field_path(fl["placeholder_index"]) == (nwp[1],)
-                  and strip(fl["now_index"])["k"] == "Lit" and strip(fl["now_index"])["lit"]["v"] == 0)
-    ctx.ob("K-IMAGEITER", "new()", ok, "")
+    rule_K_IMAGEITER(ctx)
 
     # ---- lexical side
     ctx.rule("K-LEXICAL", "lexical Term: category Atom/Compound(Compound|Set)/Statement, capacity Atom/Vec/BinaryVec, extract_terms returns the "
